@@ -16,16 +16,20 @@ def cb(v):
 ```
 ignore / +/
 start = Item*
-Item = Pair | W | T("-")
+Item = Pair | W | T("-") | Plus
 class W { w: /[ab\n]+/ |> `cb` }
 class Pair { k: W << ":"; v: W }
 T(p) = p >> W
+Plus = T2(W)
+T2(p) = "+" >> p
+Bx = Pair |> `cb`
 Acc = let acc = `[]` in (/[ab]/ |> `acc.append`)* >> `acc`
 class Tg(n) { t: `repr(n)`; w: W }
 '''
 OTHER = 'start = Num*\nignore / +/\nclass Num { n: /[0-9]+/ |> `int` }\n'
-CHILD = ('grammar %(child)s extends %(parent)s\nignore /~+/\nclass W { w: /[abc]+/ }\nItem = Pair | W | T("-")\nExtra = "z"\n')
-CHILD_TEXTS = ['-~ab c:~a', 'a:b -c', '-ab b:a', 'q:a -q']
+CHILD = ('grammar %(child)s extends %(parent)s\nignore /~+/\nclass W { w: /[abc]+/ }\nItem = Pair | W | T("-") | Plus\nExtra = "z"\n')
+# (the derived grammar reaches the inherited rule Plus, whose call passes the rule W that it overrides)
+CHILD_TEXTS = ['-~ab c:~a', 'a:b -c', '-ab +cb b:a', 'q:a -q']
 # a revision of the scenario grammar, compiled under the same name (W also accepts q)
 DESC2 = DESC.replace('/[ab\\n]+/', '/[abq\\n]+/').replace('ignore / +/\n', 'Qq = "q"\n')
 assert DESC2 != DESC and 'ignore' not in DESC2      # (structurally different: no ignore declaration, one more rule)
@@ -37,8 +41,8 @@ CALLS = [
     (None, ' b\na:a !', 1, True),       # offset, multi-line, partial
     ('W', 'ab', 0, True),
     (None, 'a:b a:', 0, True),          # partial
-    (None, '-ab b:a', 0, False),
-    ('Pair', 'a\nb:b', 0, True),
+    (None, '-ab +b\nb b:a', 0, False),  # through Plus = T2(W): a rule passed as argument (a derived grammar overrides W)
+    ('Bx', 'a\nb:b', 0, True),           # the callback receives an object of the running parse
     ('Acc', 'abb', 0, True),             # inline Python builds and fills a fresh list per parse
     (None, '-~ab', 0, True),             # text that only a derived grammar (with its own ignore) accepts further
 ]
@@ -447,7 +451,7 @@ def reentrancy_job(job, st):
     # nested-same: the nested parse is given the VERY text object the outer call is parsing (same entry), and its
     # result is then mutated in place and discarded: the outer result must not notice
     devs = ([('nested-discard', i) for i in range(len(CALLS))] + [('nested-embed', i) for i in range(len(CALLS))]
-            + [('raise', 0), ('nested-same', ci)])
+            + [('raise', 0), ('nested-same', ci), ('compile', 0), ('compile', 1), ('nested-wrap', 0)])
     outer_text = e1.fresh(call[1])
     points = [(k,) for k in range(ncb)]
     if pairs:
@@ -466,6 +470,24 @@ def reentrancy_job(job, st):
                 if dev == 'raise':
                     raise Boom()
                 g.HOOKS.pop(ident, None)
+                if dev == 'nested-wrap':
+                    # the callback returns the result of a nested parse with one field replaced by an object of the running
+                    # parse (when it was handed one): all objects end up with converted positions
+                    if not impl.is_obj(v):
+                        g.HOOKS[ident] = hook
+                        return v
+                    res['ctr']['wrapped_objects'] = res['ctr'].get('wrapped_objects', 0) + 1
+                    try:
+                        return g.Pair.parse(e1.fresh('b:a'))._replace(k=v)
+                    finally:
+                        g.HOOKS[ident] = hook
+                if dev == 'compile':
+                    # a Grammar() construction started from inline Python in the middle of the parse
+                    try:
+                        impl.build(OTHER if arg == 0 else fails_grammar(1, True))
+                    finally:
+                        g.HOOKS[ident] = hook
+                    return v
                 try:
                     ent, text, pos, full = CALLS[arg]
                     t_in = outer_text if dev == 'nested-same' else e1.fresh(text)
@@ -495,8 +517,12 @@ def reentrancy_job(job, st):
             for arg, io in inner_out:
                 if io != base[arg]:
                     add_viol(res, sigs, 're-entrancy nested-call-outcome-differs', case, base[arg], io)
-            if all(k in ('nested-discard', 'nested-same') for k in kinds) and o != base[ci]:
+            if all(k in ('nested-discard', 'nested-same', 'compile') for k in kinds) and o != base[ci]:
                 add_viol(res, sigs, 're-entrancy outer-call-disturbed-by-nested-parse', case, base[ci], o)
+            if kinds == ['nested-wrap'] and o[0] == 'RET' and 'RAWSPAN' in repr(o[1]):
+                add_viol(res, sigs, 're-entrancy position-of-an-object-inside-a-nested-result-not-converted', case, 'line/column positions', o[1])
+            if kinds == ['nested-wrap'] and o[0] != base[ci][0]:
+                add_viol(res, sigs, 're-entrancy wrapping-into-a-nested-result-fails', case, base[ci][0], o)
             if 'raise' in kinds and 'nested-embed' not in kinds:
                 first_raise = kinds.index('raise')
                 if not (o[0] == 'EXC' and o[6] == 'Boom'):
@@ -682,7 +708,7 @@ def run(tier, seed):
                 'replayed on a freshly built module, all histories of length <= 5 (6) over the 5 operations that build, rebuild under the same name and use grammars, all histories of length <= 3 (5; compilations 4) over 7 operations around a parameterised class entry requested with equal but distinguishable arguments (1, True, 1.0, [1], [True]) and over 9 operations around compilations (a grammar full of `| Fail()` choices, 4 rejected descriptions, the scenario description compiled again and called 31 times, 24 of them failing at different expressions: same outcomes incl. the failure report; interpreter settings unchanged after every operation), plus all histories of length <= 4 (5) over 6 calls through a base grammar without ignore and a derived grammar with one; (ii) ALL thread interleavings with <= 1 preemption of every pair of 8 call bodies (incl. '
                 'failing and raising ones) and of a parse against a concurrent Grammar() construction, <= 2 preemptions on reduced pairs '
                 '(thorough: 3 threads, opcode granularity), scheduling points = line events of the generated module under a baton '
-                'scheduler; (iii) EVERY single deviation (nested parse discarded / embedded x 7 calls, raise) at every inline-Python '
+                'scheduler; (iii) EVERY single deviation (nested parse discarded / embedded x 9 calls, nested parse of the outer text object, a Grammar() construction, a nested result wrapped around an object of the running parse, raise) at every inline-Python '
                 'callback point of every call (thorough: pairs); oracle: every call has the outcome (value, spans, error position and '
                 'message) of the same call made alone on a fresh module; non-trivial = executions with at least one preemption / '
                 'operation after another / deviation')
